@@ -403,3 +403,91 @@ Proof.
   destruct (lfillsx_bag rs (leaf_zero (LBag RN)) k) as [_ H]; [constructor|].
   rewrite H. cbn [leaf_zero lv sl_lookup]. apply bag_spec_none.
 Qed.
+
+(* ================= Bag of any range (strings, numbers, vectors): the value -> weight map ================= *)
+Definition bag_key (r : brange) (v : value Xq) : option (bagkey Xq) :=
+  match r, v with
+  | RS, VStr x => Some (@BStr Xq x)
+  | RS, _ => None
+  | RV n, VVec l =>
+      if Nat.eqb (List.length l) n
+      then Some (@BVec Xq (map (fun x => if xisnan x then None else Some x) l)) else None
+  | RV _, _ => None
+  | RN, _ => match @as_real Xq v with Some q => Some (key_of q) | None => None end
+  end.
+
+Lemma leaf_fill_bag r s v w :
+  @leaf_fill Xq (LBag r) s v w =
+  match bag_key r v with
+  | Some bk => Some (@Build_leafstate Xq (xadd (le s) w) (l1 s) (l2 s)
+                       (bupd bk (fun o => match o with Some c => xadd c w | None => w end) (lv s)))
+  | None => None
+  end.
+Proof.
+  unfold bag_key, key_of. destruct r as [| |n], v as [x|x|b| |l]; cbn [leaf_fill as_real]; try reflexivity.
+  - destruct b; reflexivity.
+  - destruct (Nat.eqb (List.length l) n); reflexivity.
+Qed.
+
+Definition vrows := list (value Xq * Qc).        (* any values the Bag accepts; weight > 0 *)
+Definition lfillsv (k : leafkind) (s : leafstate Xq) (rs : vrows) : leafstate Xq :=
+  fold_left (fun st (vw : value Xq * Qc) => match @leaf_fill Xq k st (fst vw) (XF (snd vw)) with
+                                            | Some st' => st' | None => st end) rs s.
+
+Definition vkey_is (r : brange) (k : bagkey Xq) (v : value Xq) : bool :=
+  match bag_key r v with
+  | Some bk => match @bag_cmp Xq k bk with Eq => true | _ => false end
+  | None => false
+  end.
+
+Fixpoint wvkey (r : brange) (k : bagkey Xq) (rs : vrows) : Qc :=
+  match rs with
+  | [] => 0
+  | (v, w) :: rest => if vkey_is r k v then w + wvkey r k rest else wvkey r k rest
+  end.
+
+Fixpoint vbag_spec (r : brange) (k : bagkey Xq) (o : option xq) (rs : vrows) : option xq :=
+  match rs with
+  | [] => o
+  | (v, w) :: rest =>
+      vbag_spec r k (if vkey_is r k v then Some (match o with Some c => xadd c (XF w) | None => XF w end) else o) rest
+  end.
+
+Lemma vbag_spec_none r k rs :
+  vbag_spec r k None rs = if existsb (fun vw => vkey_is r k (fst vw)) rs then Some (XF (wvkey r k rs)) else None.
+Proof.
+  assert (G : forall rs c, vbag_spec r k (Some (XF c)) rs = Some (XF (c + wvkey r k rs))).
+  { induction rs0 as [|[v w] rest IH]; intro c; cbn [vbag_spec wvkey].
+    - f_equal. f_equal. ring.
+    - destruct (vkey_is r k v); cbn [xadd]; rewrite IH; f_equal; f_equal; ring. }
+  induction rs as [|[v w] rest IH]; cbn [vbag_spec wvkey existsb fst]; [reflexivity|].
+  destruct (vkey_is r k v); cbn [orb]; [|exact IH]. rewrite G. reflexivity.
+Qed.
+
+Lemma lfillsv_bag r (rs : vrows) : forall s k, bsorted (lv s) ->
+  bsorted (lv (lfillsv (LBag r) s rs)) /\
+  blookup k (lv (lfillsv (LBag r) s rs)) = vbag_spec r k (blookup k (lv s)) rs.
+Proof.
+  induction rs as [|[v w] rest IH]; intros s k S; [split; [exact S | reflexivity]|].
+  cbn [lfillsv fold_left fst snd]. fold (lfillsv (LBag r)). rewrite leaf_fill_bag.
+  cbn [vbag_spec]. unfold vkey_is.
+  destruct (bag_key r v) as [bk|] eqn:E.
+  - match goal with |- context [fold_left _ rest ?x] => change (fold_left _ rest x) with (lfillsv (LBag r) x rest) end.
+    match goal with |- context [lfillsv (LBag r) ?x rest] => set (s' := x) end.
+    assert (S' : bsorted (lv s')) by (subst s'; cbn [lv]; apply bs_upd; exact S).
+    destruct (IH s' k S') as [A B]. split; [exact A|]. rewrite B. f_equal.
+    subst s'. cbn [lv]. rewrite bs_lookup_upd by exact S.
+    destruct (@bag_cmp Xq k bk) eqn:C; try reflexivity. apply bag_cmp_eq in C. subst k. reflexivity.
+  - change (fold_left _ rest s) with (lfillsv (LBag r) s rest). apply IH. exact S.
+Qed.
+
+(* a Bag of any range filled from empty: under every key the sum of the weights of the accepted rows
+   with that value (strings; numbers with NaN under "nan"; vectors with NaN components marked),
+   nothing under other keys; rows of the wrong type raise and leave the Bag as it was *)
+Theorem bag_denote_any r (rs : vrows) k :
+  blookup k (lv (lfillsv (LBag r) (leaf_zero (LBag r)) rs)) =
+  if existsb (fun vw => vkey_is r k (fst vw)) rs then Some (XF (wvkey r k rs)) else None.
+Proof.
+  destruct (lfillsv_bag r rs (leaf_zero (LBag r)) k) as [_ H]; [constructor|].
+  rewrite H. cbn [leaf_zero lv sl_lookup]. apply vbag_spec_none.
+Qed.
